@@ -2,6 +2,7 @@ package props
 
 import (
 	"fmt"
+	"sort"
 	"strings"
 
 	"gorgonia.org/tensor"
@@ -307,6 +308,7 @@ func runC02(r *core.Run) {
 
 	// the cheaper, wider parts first: an internal deadline (thorough tier) then only cuts into the largest cross products
 	c02Reduced(r, redDts)
+	c02SliceIntoReused(r)
 	c02Nested(r, append([]ref.DT{ref.Float64}, redDts...))
 	for _, sw := range sweeps {
 		for _, shape := range sw.shapes {
@@ -655,5 +657,110 @@ func c02BFS(r *core.Run, d ref.DT, shape []int, fort bool, depth, maxStates int)
 			}
 		}
 		frontier = next
+	}
+}
+
+// c02SliceIntoReused: SliceInto "overrides ALL the metadata in view" - also when the view handed in has a history: a pending
+// lazy transpose, or the mask window of a masked tensor. Differential oracle: the result must be indistinguishable from what
+// Slice returns for the same arguments (shape, elements, maskedness), also after UT (nothing is pending on a fresh slice).
+func c02SliceIntoReused(r *core.Run) {
+	d := ref.Float64
+	for _, shape := range [][]int{{4}, {3, 2}, {2, 3}, {2, 2, 2}} {
+		for _, lay := range []string{"C", "T", "S"} {
+			for _, variant := range []string{"pending-transpose", "masked-view"} {
+				if !r.Take() {
+					continue
+				}
+				shape, lay, variant := shape, lay, variant
+				id := fmt.Sprintf("C02|SliceIntoReused|%s|%s|%s", shapeStr(shape), lay, variant)
+				if r.ReplayCase != "" && id != r.ReplayCase {
+					continue
+				}
+				r.Case(id, true, func() *core.Fail {
+					n := ref.Prod(shape)
+					vals := make([]interface{}, n)
+					for i := range vals {
+						vals[i] = d.Code(i + 1)
+					}
+					var fails []string
+					for _, sl := range atlas.SliceLists(shape, atlas.AxisAlphabet) {
+						tensor.VerifResetPools()
+						b := buildVerified(d, shape, vals, lay)
+						if b == nil {
+							return nil
+						}
+						args := atlas.ToSlices(sl)
+						want, werr := b.T.Slice(args...)
+						var into *tensor.Dense
+						switch variant {
+						case "pending-transpose":
+							into = tensor.New(tensor.WithShape(2, 3), tensor.WithBacking([]float64{9, 9, 9, 9, 9, 9}))
+							into.T()
+						case "masked-view":
+							mt := tensor.New(tensor.WithShape(2, 3), tensor.WithBacking([]float64{9, 9, 9, 9, 9, 9}, []bool{true, false, true, false, true, true}))
+							v, err := mt.Slice(tensor.S(1, 2))
+							if err != nil {
+								return nil
+							}
+							into = v.(*tensor.Dense)
+						}
+						var got tensor.View
+						var gerr error
+						o := call(func() error { got, gerr = b.T.SliceInto(into, args...); return nil })
+						r.Op(2)
+						if o.Class != "ok" {
+							fails = append(fails, fmt.Sprintf("%s: SliceInto panics: %s", slListStr(sl), o))
+							continue
+						}
+						if (werr == nil) != (gerr == nil) {
+							fails = append(fails, fmt.Sprintf("%s: Slice err=%v, SliceInto err=%v", slListStr(sl), werr, gerr))
+							continue
+						}
+						if werr != nil {
+							continue
+						}
+						wd, gd := want.(*tensor.Dense), got.(*tensor.Dense)
+						cmp := func(stage string) {
+							if !ref.EqInts(wd.Shape(), gd.Shape()) {
+								fails = append(fails, fmt.Sprintf("%s %s: shape %v, Slice gives %v", slListStr(sl), stage, []int(gd.Shape()), []int(wd.Shape())))
+								return
+							}
+							if wd.IsMasked() != gd.IsMasked() {
+								fails = append(fails, fmt.Sprintf("%s %s: IsMasked()=%v, Slice gives %v (stale mask of the recycled view)", slListStr(sl), stage, gd.IsMasked(), wd.IsMasked()))
+								return
+							}
+							a, e1 := atlas.Logical(wd)
+							c, e2 := atlas.Logical(gd)
+							if e1 != nil || e2 != nil || len(a) != len(c) {
+								fails = append(fails, fmt.Sprintf("%s %s: unreadable (%v / %v)", slListStr(sl), stage, e1, e2))
+								return
+							}
+							for i := range a {
+								if !ref.Same(a[i], c[i]) {
+									fails = append(fails, fmt.Sprintf("%s %s: element %d is %s, Slice gives %s", slListStr(sl), stage, i, ref.Fmt(c[i]), ref.Fmt(a[i])))
+									return
+								}
+							}
+						}
+						cmp("result")
+						if o := call(func() error { wd.UT(); gd.UT(); return nil }); o.Class == "ok" {
+							cmp("after UT")
+						} else {
+							fails = append(fails, fmt.Sprintf("%s: UT on the result panics: %s", slListStr(sl), o))
+						}
+					}
+					r.Outcome("SliceIntoReused:" + variant)
+					if len(fails) == 0 {
+						return nil
+					}
+					sort.Strings(fails)
+					k := fails[0]
+					if len(fails) > 4 {
+						fails = fails[:4]
+					}
+					return core.F("wrong-value", fmt.Sprintf("%x", core.H64(k)), "SliceInto into a recycled view (%s) differs from Slice: %s", variant, strings.Join(fails, " ; "))
+				})
+			}
+		}
 	}
 }
